@@ -123,6 +123,28 @@ pub fn specs() -> Vec<PropSpec> {
             assumptions: COMMON_ASSUMPTIONS,
         },
         PropSpec {
+            id: "C06",
+            parts: &[("c06", 480, 6000)],
+            level: "exploration",
+            tags: &["C06"],
+            rule: "Each evaluation is one seeded history (C01 workload with \
+                the real UpdateSnapshots task and restarts at seed-chosen \
+                points, both storage back-ends). At every restart and at \
+                the end, for every CA, the TA proxy and signer, repository \
+                access, signer info and properties: the live aggregate, a \
+                fresh store on the same storage (latest snapshot + later \
+                commands) and a fresh store on a copy with all snapshots \
+                removed (init + every command) are serialised and compared \
+                field by field (only `last_key_change` and `since` masked); \
+                API views (CertAuthInfo, configured ROAs, child info, \
+                status) and the repository content log (publisher content, \
+                session, serial) are compared between the live managers \
+                and second managers built on the same storage. Any panic \
+                or load error is a violation. Non-trivial/distinct as for \
+                C01.",
+            assumptions: COMMON_ASSUMPTIONS,
+        },
+        PropSpec {
             id: "C05",
             parts: &[("c05", 480, 6000)],
             level: "exploration",
